@@ -139,7 +139,18 @@ class RawClient:
         self.bin += new
         msgs, self.bin = RM.split_stream(self.bin)
         for raw in msgs:
-            p = RM.parse(raw, strict=True, check_names=False)
+            try:
+                p = RM.parse(raw, strict=True, check_names=False)
+                p.malformed = None
+            except RM.CodecError as e:
+                # keep going with a lenient reading; the check decides what a malformed message means
+                try:
+                    p = _lenient(raw)
+                except Exception:
+                    p = RM.Parsed()
+                    p.mtype = p.flags = p.serial = None
+                    p.signature = ''
+                p.malformed = str(e)
             p.raw = raw
             self.inbox.append(p)
             self.unread.append(p)
@@ -233,6 +244,26 @@ class RealClient:
             self.server.lose(Failure(ConnectionDone()))
             self.client.lose(Failure(ConnectionDone()))
             self.net.collect_all()
+
+
+def _lenient(raw):
+    """Reading of a message that tolerates wrong header field types."""
+    from harness import ref_codec as R
+    little = raw[0:1] == b'l'
+    (endian, mtype, flags, version, body_len, serial, farr), hend = R.decode('yyyyuua(yv)', raw, 0, little, False)
+    p = RM.Parsed()
+    p.little, p.mtype, p.flags, p.version, p.body_len, p.serial = little, mtype, flags, version, body_len, serial
+    for code, var in farr:
+        if code in RM.FIELD_NAME:
+            p.fields[RM.FIELD_NAME[code]] = var.value
+            p.field_types[RM.FIELD_NAME[code]] = var.sig
+    p.signature = p.fields.get('signature', '')
+    bstart = hend + (8 - hend % 8) % 8
+    if p.signature:
+        typed, end = R.decode(p.signature, raw[bstart:], 0, little, False)
+        p.body_typed = typed
+        p.body = R.plain_list(p.signature, typed)
+    return p
 
 
 def pump(net, rng=None, max_steps=10000, split=False):
